@@ -784,7 +784,7 @@ func (w *Walker) RunPath(target *tlc.Node, rng *rand.Rand) error {
 		}
 		if l.Name == "CheckAccept" && res.Class == 1 {
 			t := l.Args[0].Int()
-			want := w.expectedEvictions(cur, t)
+			want := ex.EV[t-1]
 			if !eqInts(res.Conflicts, want) || res.Fee != m.U.Txs[t-1].Fee || int(res.VSize) != m.C.VSize[t-1] {
 				w.noteDrift(fmt.Sprintf("universe %s: %s reports conflicts %v fee %d size %d, spec: %v %d %d", m.U.Name, lab, res.Conflicts, res.Fee, res.VSize, want, m.U.Txs[t-1].Fee, m.C.VSize[t-1]))
 			}
@@ -819,24 +819,6 @@ func (w *Walker) RunPath(target *tlc.Node, rng *rand.Rand) error {
 		w.OnPathEnd(env)
 	}
 	return nil
-}
-
-// expectedEvictions reads from the graph what MaybeAcceptTransaction(t) would
-// evict in state n.
-func (w *Walker) expectedEvictions(n *tlc.Node, t int) []int {
-	lab := fmt.Sprintf("MaybeAcceptTx(%d,TRUE)", t)
-	var out []int
-	for _, i := range w.M.ByLabel[n][lab] {
-		to := w.M.States[n.Out[i].To]
-		for x := range w.M.States[n].Pool {
-			if _, still := to.Pool[x]; !still {
-				out = append(out, x)
-			}
-		}
-		break
-	}
-	sort.Ints(out)
-	return out
 }
 
 func (w *Walker) noteDrift(s string) {
